@@ -23,6 +23,11 @@ COMMIT_FMTS = ['https://example.com/c/{commit}', 'c://{commit}/x/{commit}', 'htt
 REMOTES = [('https://github.com/acme/widget.git', 'https://github.com/acme/widget/commit/{commit}'),
            ('git@github.com:acme/widget.git', 'https://github.com/acme/widget/commit/{commit}'),
            ('https://github.com/acme/wid.get', 'https://github.com/acme/wid.get/commit/{commit}'),
+           ('https://github.com/jesseduffield/lazygit', 'https://github.com/jesseduffield/lazygit/commit/{commit}'),
+           ('git@github.com:go-git/go-git', 'https://github.com/go-git/go-git/commit/{commit}'),
+           ('https://github.com/magit/magit.git', 'https://github.com/magit/magit/commit/{commit}'),
+           ('ssh://git@github.com/libgit2/libgit2.git', 'https://github.com/libgit2/libgit2/commit/{commit}'),
+           ('https://gitlab.com/grp/xgit', 'https://gitlab.com/grp/xgit/-/commit/{commit}'),
            ('https://gitlab.com/grp/sub/proj.git', 'https://gitlab.com/grp/sub/proj/-/commit/{commit}'),
            ('git@gitlab.com:grp/proj.git', 'https://gitlab.com/grp/proj/-/commit/{commit}'),
            ('https://git.sr.ht/~someone/thing', 'https://git.sr.ht/~someone/thing/commit/{commit}'),
